@@ -231,6 +231,7 @@ def run(ctx):
     narrow(ctx, fb)
     masks(ctx, fb)
     float_to_int(ctx, fb, T)
+    minmax(ctx, fb)
 
 
 def token_rule(ctx, fb, caps):
@@ -526,3 +527,59 @@ def float_to_int(ctx, fb, T):
             ctx.inst(R, key, ok, 'the converted value is clamped on both sides immediately before the conversion' if clamped else ('reviewed: ' + rv) if rv else
                      'to_int_round / to_int_trunc is applied to a value that is not clamped: out-of-range and NaN lanes become i32::MIN on x86 but saturate on the generic ISA (and in a scalar `as i32` tail), so results differ by ISA and by position in the slice', c.loc())
     ctx.floor(R, 'float -> int conversion sites in vectorized code', n, 3)
+
+
+
+def minmax(ctx, fb):
+    """(primitive) the generic ISA's float min / max must have the x86 semantics the AVX2 / AVX-512 impls get from
+    minps / maxps (second operand on NaN or equal zeros): their closures are a plain `<` / `>` comparison-and-pick with no
+    call of std's f32::min / f32::max (which return the non-NaN operand and so disagree for NaN);  (nan-sticky) MaxNum /
+    MinNum, documented as NaN-propagating, keep a NaN accumulator: the fold closure tests `acc == acc` as well as `x == x`
+    and its final select falls back to the accumulator."""
+    R = 'C18.min-max'
+    n = 0
+    for f in fb.fns(crate='rten_simd'):
+        m = re.search(r'^<rten_simd::arch::generic::GenericIsa as rten_simd::ops::NumOps<(f32|f64)>>::(min|max)::\{closure#0\}$', f.path)
+        if not m or not f.has_mir():
+            continue
+        n += 1
+        std = [c for c in f.calls() if re.search(r'<impl f(32|64)>::(min|max|minimum|maximum)$', c.callee or '')]
+        cmps = [st for b in f.bbs if not b.get('c') for st in b['s'] if st[0] == '=' and st[2][0] == 'bin' and st[2][1] in ('Lt', 'Gt')]
+        want = 'Lt' if m.group(2) == 'min' else 'Gt'
+        ok = not std and any(st[2][1] == want and root_param(f, st[2][2]) == 2 and root_param(f, st[2][3]) == 3 for st in cmps)
+        # closure params: _1 = closure env, _2 = x, _3 = y
+        ctx.inst(R, 'generic-%s-%s' % (m.group(1), m.group(2)), ok, 'generic %s is `if x %s y { x } else { y }` (y on NaN / equal zeros, as %sps)' % (m.group(2), '<' if want == 'Lt' else '>', m.group(2)) if ok else
+                 'generic float %s %s: it disagrees with AVX2 / AVX-512 (which return the second operand when either is NaN or both are zero)' % (m.group(2), 'calls std ' + (std[0].callee or '').split('::')[-1] if std else 'is not the x %s y comparison-and-pick' % ('<' if want == 'Lt' else '>')), f.loc())
+    ctx.floor(R, 'generic float min / max closures', n, 2)
+    k = 0
+    for f in fb.fns(crate='rten_vecmath'):
+        m = re.search(r'min_max::(MaxNum|MinNum)<.*> as rten_simd::dispatch::SimdOp>::eval::\{closure#\d+\}$', f.path)
+        if not m or not f.has_mir():
+            continue
+        mm = [c for c in f.calls() if re.search(r'NumOps<.*>>?::(min|max)$|::(min|max)$', c.callee or '') and len(c.args) == 3]
+        if not mm:
+            continue      # the scalar reduction closure
+        k += 1
+        eqs = [c for c in f.calls() if re.search(r'::eq$', c.callee or '') and len(c.args) == 3]
+        acc, x = 2, 3     # closure params: _1 env, _2 accumulator, _3 element
+        def self_eq(l):
+            return any(f.resolve_copy(c.args[1])[0] == 'param' and f.resolve_copy(c.args[1])[1] == l - 1 and f.resolve_copy(c.args[2])[0] == 'param' and f.resolve_copy(c.args[2])[1] == l - 1 for c in eqs) or \
+                any(op_local(c.args[1]) is not None and op_local(c.args[2]) is not None and root_param(f, c.args[1]) == l and root_param(f, c.args[2]) == l for c in eqs)
+        ok = self_eq(acc) and self_eq(x)
+        ctx.inst(R, 'nan-sticky:' + m.group(1), ok, '%s tests both `acc == acc` and `x == x`: a NaN accumulator is kept' % m.group(1) if ok else
+                 '%s does not test whether the running value is already NaN: max(NaN, x) = x on every ISA, so a NaN followed by other values is lost although the op is documented as NaN-propagating' % m.group(1), f.loc())
+    ctx.floor(R, 'MaxNum / MinNum fold closures', k, 2)
+
+
+def root_param(f, op, depth=6):
+    l = op_local(op)
+    while l is not None and depth > 0:
+        if 1 <= l <= f.argc:
+            return l
+        d = f.def_of_local(l)
+        if d is None or d[2] != 'rv' or d[3][0] not in ('use', 'ref') :
+            return None
+        src = d[3][1] if d[3][0] == 'use' else ['c', d[3][2]]
+        l = op_local(src)
+        depth -= 1
+    return None
